@@ -96,7 +96,9 @@ def decode_history(flat):
 
 
 def fingerprint(ds_inputs_objs):
-    return [[None if a is None else a.tobytes() for a in (i.obs, i.fcst, i.pit)] for i in ds_inputs_objs]
+    return [[None if a is None else np.asarray(a).tobytes() for a in
+             [i.obs, i.fcst, i.pit, i.ensemble, i.threshold_scores, i.quantile_scores] + [getattr(i, "_other", {}).get(k) for k in sorted(getattr(i, "_other", {}))]]
+            for i in ds_inputs_objs]
 
 
 def explore(out, tier, seed, facts, replay=None):
@@ -167,6 +169,34 @@ def _explore(out, tier, seed, facts, replay):
                 out.violation("earlier-array-altered", "the arrays returned for request #%d %r were altered by later requests %r"
                               % (i, h[i], h[i + 1:]), {"dataset": ds, "history": h, "index": i})
                 break
+    # fields DERIVED from the ensemble (quantile levels, threshold probabilities) mixed with member requests: same two
+    # clauses (answer as a fresh dataset would; arrays handed out earlier stay as they were).  Not part of the model tie.
+    for ds, m in dsets:
+        if not all("ens0" in i["fields"] for i in ds["inputs"]):
+            continue
+        k1 = 1 if len(ds["inputs"]) > 1 else 0
+        dm = [(["qu0.5"], 0, ALL, 0), (["qu0.25", "obs"], 0, 3, 0), (["th1.0"], 0, ALL, 0), (["ens0"], 0, ALL, 0), (["ens1"], 0, 3, 0),
+              (["ens0", "ens1"], k1, ALL, 0), (["qu0.9"], k1, ALL, 0), (["obs", "fcst"], 0, ALL, 0)]
+        dcases = [list(h) for h in itertools.product(dm, repeat=2)] + [[rng.choice(dm) for _ in range(rng.randint(3, 6))] for _ in range(20 if tier == "quick" else 150)]
+        for h in dcases:
+            res = impl_history(ds, h)
+            nf += 1
+            if isinstance(res, tuple):
+                continue
+            for i, (at_ret, at_end) in enumerate(res):
+                if isinstance(at_ret, tuple):
+                    if at_ret[0] == "exception":
+                        out.violation("unhandled-exception:%s" % at_ret[1], "request %d of history raised %s" % (i, at_ret[1]), {"dataset": ds, "history": h})
+                    continue
+                want = fresh(ds, h[i])
+                if not datatie.compare_cols(at_ret, want):
+                    out.violation("depends-on-history:derived", "request #%d %r after %r returns %s, a freshly built dataset returns %s (qu<level> = quantile field, th<t> = threshold probability, ens<k> = member k)"
+                                  % (i, h[i], h[:i], str(at_ret)[:200], str(want)[:200]), {"dataset": ds, "history": h, "index": i})
+                    break
+                if not datatie.compare_cols(at_end, at_ret):
+                    out.violation("earlier-array-altered:derived", "the arrays returned for request #%d %r were altered by later requests %r"
+                                  % (i, h[i], h[i + 1:]), {"dataset": ds, "history": h, "index": i})
+                    break
     # inputs unmodified + two runs identical, on a sample
     for ds, m in dsets:
         inputs = [datagen.mem_input(s, "in%d" % i) for i, s in enumerate(ds["inputs"])]
@@ -179,7 +209,8 @@ def _explore(out, tier, seed, facts, replay):
             kw["obs_range"] = ds["cfg"]["obs_range"]
         try:
             d = verif.data.Data(inputs, **kw)
-            for (fs, k, ax, ai) in m + m:
+            dreq = [(["qu0.5"], 0, ALL, 0), (["th1.0"], 0, ALL, 0), (["qu0.25"], 0, 3, 0)] if all(i.ensemble is not None for i in inputs) else []
+            for (fs, k, ax, ai) in m + dreq + m:
                 try:
                     if ax == ALL:
                         d.get_scores([datagen.field_obj(f) for f in fs], k)
